@@ -5,6 +5,10 @@
 (* numbering.  Invariants: Contiguous (ids = positions at every level) and the action-like invariants        *)
 (* CitationsTrackItems (renumbering never redirects a citation whose source and target both survive) and     *)
 (* NoDanglingUnlessRemoved.  TLC explores all sequences of <= MaxOps editing actions.                         *)
+(* ReplaceIdTop / ReplaceIdIn = ProofState.replace_id(old, new): every citation of old ANYWHERE (later lines of   *)
+(* its level and the lines inside later sibling blocks) goes to new, then old is removed with renumbering;        *)
+(* invariant ReplacedCitationsFollow.  The same layer for blocks nested to any depth, with the behaviours        *)
+(* emitted as vectors for the real code, is spec/C13_LineEdit.tla.                                                *)
 EXTENDS Naturals, Sequences, FiniteSets, TLC
 \* item: [uid, id (seq of nat), prevs (seq of ids), sub (seq of items)]   (two levels of nesting are enough for the id arithmetic)
 CONSTANTS MaxOps, MaxLines
@@ -22,8 +26,8 @@ RECURSIVE MapItem(_,_,_,_)
 MapItem(it, f(_), g(_), d) ==
   [uid |-> it.uid, id |-> f(it.id), prevs |-> [i \in 1..Len(it.prevs) |-> g(it.prevs[i])],
    sub |-> IF d = 0 THEN it.sub ELSE [i \in 1..Len(it.sub) |-> MapItem(it.sub[i], f, g, d - 1)]]
-VARIABLES prf, nextUid, ops, before
-vars == <<prf, nextUid, ops, before>>
+VARIABLES prf, nextUid, ops, before, lastop
+vars == <<prf, nextUid, ops, before, lastop>>
 Blank(u, id) == [uid |-> u, id |-> id, prevs |-> <<>>, sub |-> <<>>]
 \* ---- ProofState.add_line_before(id, n=1) on the top level or inside block b ----
 AddTop(pos) ==
@@ -46,21 +50,34 @@ RemoveIn(b, pos) ==
 AllItems(p) == { <<p[i].id, p[i].uid>> : i \in 1..Len(p) } \cup UNION { { <<p[i].sub[j].id, p[i].sub[j].uid>> : j \in 1..Len(p[i].sub) } : i \in 1..Len(p) }
 CiteTop(pos, target) == CanDependOn(<<pos>>, target) /\ prf' = [prf EXCEPT ![pos+1].prevs = Append(@, target)]
 CiteIn(b, pos, target) == CanDependOn(<<b, pos>>, target) /\ prf' = [prf EXCEPT ![b+1].sub[pos+1].prevs = Append(@, target)]
+UidOf(p, id) == LET S == { x[2] : x \in { x \in AllItems(p) : x[1] = id } } IN IF S = {} THEN 0 ELSE CHOOSE u \in S : TRUE
+\* ---- ProofState.replace_id(old, new): redirect every citation of old to new, then remove old ----
+ReplaceIdTop(pos, new) ==
+  LET old == <<pos>> re(x) == IF x = old THEN new ELSE x  same(x) == x  dec(x) == DecrId(x, old)
+      p1 == [i \in 1..Len(prf) |-> MapItem(prf[i], same, re, 1)]
+  IN CanDependOn(old, new) /\ prf' = [i \in 1..Len(p1)-1 |-> IF i-1 < pos THEN p1[i] ELSE MapItem(p1[i+1], dec, dec, 1)]
+ReplaceIdIn(b, pos, new) ==
+  LET old == <<b, pos>> re(x) == IF x = old THEN new ELSE x  same(x) == x  dec(x) == DecrId(x, old)
+      blk == [j \in 1..Len(prf[b+1].sub) |-> MapItem(prf[b+1].sub[j], same, re, 0)]
+      blk2 == [i \in 1..Len(blk)-1 |-> IF i-1 < pos THEN blk[i] ELSE MapItem(blk[i+1], dec, dec, 0)]
+  IN CanDependOn(old, new) /\ prf' = [prf EXCEPT ![b+1].sub = blk2]
 Size(p) == Len(p) + (IF Len(p) = 0 THEN 0 ELSE LET S == { Len(p[i].sub) : i \in 1..Len(p) } IN CHOOSE m \in S : \A x \in S : x <= m)
 Init == /\ prf = << Blank(1, <<0>>), [uid |-> 2, id |-> <<1>>, prevs |-> <<>>, sub |-> << Blank(3, <<1,0>>), Blank(4, <<1,1>>) >>], Blank(5, <<2>>) >>
-        /\ nextUid = 6 /\ ops = 0 /\ before = prf
+        /\ nextUid = 6 /\ ops = 0 /\ before = prf /\ lastop = <<"edit", 0, 0>>
+Plain == \/ \E pos \in 0..Len(prf) : Len(prf) < MaxLines /\ AddTop(pos) /\ nextUid' = nextUid + 1
+         \/ \E b \in 0..Len(prf)-1, pos \in 0..MaxLines : pos <= Len(prf[b+1].sub) /\ Len(prf[b+1].sub) > 0 /\ Len(prf[b+1].sub) < MaxLines /\ AddIn(b, pos) /\ nextUid' = nextUid + 1
+         \/ \E pos \in 0..Len(prf)-1 : Len(prf) > 1 /\ RemoveTop(pos) /\ UNCHANGED nextUid
+         \/ \E b \in 0..Len(prf)-1, pos \in 0..MaxLines : pos < Len(prf[b+1].sub) /\ Len(prf[b+1].sub) > 1 /\ RemoveIn(b, pos) /\ UNCHANGED nextUid
+         \/ \E pos \in 0..Len(prf)-1, t \in { x[1] : x \in AllItems(prf) } : CiteTop(pos, t) /\ UNCHANGED nextUid
+         \/ \E b \in 0..Len(prf)-1, pos \in 0..MaxLines, t \in { x[1] : x \in AllItems(prf) } : pos < Len(prf[b+1].sub) /\ CiteIn(b, pos, t) /\ UNCHANGED nextUid
 Next == /\ ops < MaxOps /\ ops' = ops + 1 /\ before' = prf
-        /\ \/ \E pos \in 0..Len(prf) : Len(prf) < MaxLines /\ AddTop(pos) /\ nextUid' = nextUid + 1
-           \/ \E b \in 0..Len(prf)-1, pos \in 0..MaxLines : pos <= Len(prf[b+1].sub) /\ Len(prf[b+1].sub) > 0 /\ Len(prf[b+1].sub) < MaxLines /\ AddIn(b, pos) /\ nextUid' = nextUid + 1
-           \/ \E pos \in 0..Len(prf)-1 : Len(prf) > 1 /\ RemoveTop(pos) /\ UNCHANGED nextUid
-           \/ \E b \in 0..Len(prf)-1, pos \in 0..MaxLines : pos < Len(prf[b+1].sub) /\ Len(prf[b+1].sub) > 1 /\ RemoveIn(b, pos) /\ UNCHANGED nextUid
-           \/ \E pos \in 0..Len(prf)-1, t \in { x[1] : x \in AllItems(prf) } : CiteTop(pos, t) /\ UNCHANGED nextUid
-           \/ \E b \in 0..Len(prf)-1, pos \in 0..MaxLines, t \in { x[1] : x \in AllItems(prf) } : pos < Len(prf[b+1].sub) /\ CiteIn(b, pos, t) /\ UNCHANGED nextUid
+        /\ \/ Plain /\ lastop' = <<"edit", 0, 0>>
+           \/ \E pos \in 0..Len(prf)-1, t \in { x[1] : x \in AllItems(prf) } : Len(prf) > 1 /\ ReplaceIdTop(pos, t) /\ UNCHANGED nextUid /\ lastop' = <<"replace", UidOf(prf, <<pos>>), UidOf(prf, t)>>
+           \/ \E b \in 0..Len(prf)-1, pos \in 0..MaxLines, t \in { x[1] : x \in AllItems(prf) } : pos < Len(prf[b+1].sub) /\ Len(prf[b+1].sub) > 1 /\ ReplaceIdIn(b, pos, t) /\ UNCHANGED nextUid /\ lastop' = <<"replace", UidOf(prf, <<b, pos>>), UidOf(prf, t)>>
 Spec == Init /\ [][Next]_vars
 \* ---- properties ----
 Contiguous == /\ \A i \in 1..Len(prf) : prf[i].id = <<i-1>>
               /\ \A i \in 1..Len(prf) : \A j \in 1..Len(prf[i].sub) : prf[i].sub[j].id = <<i-1, j-1>>
-UidOf(p, id) == LET S == { x[2] : x \in { x \in AllItems(p) : x[1] = id } } IN IF S = {} THEN 0 ELSE CHOOSE u \in S : TRUE
 Cites(p) == { <<p[i].uid, UidOf(p, p[i].prevs[k])>> : i \in 1..Len(p), k \in 1..3 } \cap { <<p[i].uid, UidOf(p, p[i].prevs[k])>> : i \in 1..Len(p), k \in 1..0 }
 \* citation graph on uids (who cites whom), computed through the current numbering
 CiteGraph(p) == UNION { { <<p[i].uid, UidOf(p, p[i].prevs[k])>> : k \in 1..Len(p[i].prevs) } : i \in 1..Len(p) }
@@ -69,5 +86,8 @@ Uids(p) == { x[2] : x \in AllItems(p) }
 \* renumbering must not redirect any citation whose source and target both survive
 CitationsTrackItems == LET keep == Uids(prf) \cap Uids(before) IN
    { e \in CiteGraph(before) : e[1] \in keep /\ e[2] \in keep } \subseteq CiteGraph(prf)
+\* replace_id: whoever cited the replaced item now cites its replacement - wherever the citing line is
+ReplacedCitationsFollow == lastop[1] = "replace" =>
+   \A e \in CiteGraph(before) : (e[2] = lastop[2] /\ e[2] # 0 /\ e[1] \in Uids(prf)) => <<e[1], lastop[3]>> \in CiteGraph(prf)
 NoDanglingUnlessRemoved == \A e \in CiteGraph(prf) : e[2] # 0 \/ \E f \in CiteGraph(before) : f[1] = e[1] /\ f[2] \notin Uids(prf)
 ====
